@@ -55,6 +55,9 @@ def _execute(h, prefix, repo, stop_at_seen=None):
 class Execution(object):
     def __init__(self, h):
         self.h = h
+        from . import isolation
+
+        isolation.reset()  # every execution stands for a fresh process
         self.main_fn, self.monitor, self.root = h.fresh()
         self.sched = vmp.Sched(pipe_capacity=h.pipe_capacity, io_points=h.io_points, monitor=self.monitor, root=self.root, contended_timeouts=getattr(h, "contended_timeouts", False))
         self.patch = vmp.Patched(self.sched)
